@@ -31,6 +31,8 @@ type Engine struct {
 	modBusy    map[string]bool
 	mutGlobal  map[*ssa.Global]bool
 	globalInit map[*ssa.Global][]globalInitFact
+	names      map[string]map[string]string // committed: function -> contract-named local -> Go type (unchanged tree)
+	recNames   map[string]map[string]string // recorded in this run (-names)
 	repoDir    string
 	ghostTypes []string
 	perReturn  bool // debug: one post obligation per return statement
